@@ -20,6 +20,17 @@ pub fn random_html_case(rng: &mut Rng, contexts: &[Ctx], exclude: &[&str], allow
         },
         _ => gen::html_doc(rng, exclude, 18),
     };
+    let input = if rng.chance(1, 12) {
+        // a meta with a hostile encoding declaration somewhere in the input
+        let mut chars: Vec<char> = input.chars().collect();
+        let at = rng.below(chars.len() + 1);
+        for (i, c) in gen::random_meta(rng).chars().enumerate() {
+            chars.insert(at + i, c);
+        }
+        chars.into_iter().collect()
+    } else {
+        input
+    };
     let mut opts = HtmlOpts::default();
     opts.scripting = !rng.chance(1, 3);
     if !contexts.is_empty() && rng.chance(1, 4) {
